@@ -165,7 +165,9 @@ type ntsPeer struct {
 	keLens   []int64 // cookies the next key exchange hands out
 	c2s, s2c []byte
 	nKE      int
-	server   []byte // Server record of the next key exchange (nil: the peer's address)
+	stall    int           // after the handshake and the request: 1 send nothing, 2 half a record, 3 a byte per second
+	release  chan struct{} // closed when stalled connections may go
+	server   []byte        // Server record of the next key exchange (nil: the peer's address)
 	port     int    // Port record (0: the scripted NTP peer's port)
 }
 
@@ -202,8 +204,31 @@ func (p *ntsPeer) handleKE(conn *tls.Conn) {
 	p.c2s, p.s2c = data.C2sKey, data.S2cKey
 	lens := p.keLens
 	server, port := p.server, p.port
+	stall, release := p.stall, p.release
 	p.nKE++
 	p.mu.Unlock()
+	if stall != 0 {
+		conn.SetDeadline(time.Now().Add(90 * time.Second))
+		full := []byte{0x80, 1, 0, 2, 0, 0, 0x80, 4, 0, 2, 0, 15, 0, 5, 0, 124}
+		switch stall {
+		case 2:
+			conn.Write(full[:3])
+		case 3:
+			for i := 0; i < 80; i++ {
+				conn.Write(full[i%len(full) : i%len(full)+1])
+				select {
+				case <-release:
+					return
+				case <-time.After(time.Second):
+				}
+			}
+		}
+		select {
+		case <-release:
+		case <-time.After(80 * time.Second):
+		}
+		return
+	}
 	if server == nil {
 		server = []byte(p.e.peerIP.String())
 	}
@@ -545,6 +570,8 @@ func runClient(e *netEnv, j job, a []val) string {
 		return runOverlap(e, a)
 	case "cli.ipopt":
 		return runClientIPOpt(e, a)
+	case "cli.kestall":
+		return runClientKEStall(e, a)
 	}
 	return "0 []"
 }
